@@ -1,0 +1,16 @@
+//go:build verif
+// +build verif
+
+package ShouXingUtil
+
+// VerifSaLon exposes the library's own apparent solar longitude (radians) at
+// Julian century t (TT, from J2000), full series.
+func VerifSaLon(t float64) float64 {
+	return saLon(t, -1)
+}
+
+// VerifMsaLon exposes the library's own moon-minus-sun apparent longitude
+// difference (radians) at Julian century t (TT, from J2000), full series.
+func VerifMsaLon(t float64) float64 {
+	return msaLon(t, -1, 60)
+}
